@@ -3,6 +3,14 @@ families = correspondence families (harness `gen <fam>`) with quick-tier op coun
 monitor = number of monitor cases in the quick tier (harness `monitor <id>`)."""
 
 PROPS = {
+    "C17": {
+        "families": {"wrapper": 20000, "bank": 12000, "fx": 4000},
+        "monitor": 20000,
+        "assumptions": [
+            "theorems are about the share-accounting layer (BankAccountWrapper / BankImpl) that every deposit/borrow/withdraw handler goes through; the handlers' own call order is tied by the generated skeletons and instruction-level runs (see evidence 'families')",
+            "asset share value positive and total shares non-negative for the capacity theorem (invariants of C02/C06)",
+        ],
+    },
     "C20": {
         "families": {"integr": 42000, "fx": 6000},
         "monitor": 20000,
@@ -36,6 +44,12 @@ _NOTE = ("Trusted: Lean kernel; axioms propext/Classical.choice/Quot.sound only 
          "and by diffing model vs real code on generated operations. ")
 
 MANIFEST_TEXT = {
+    "C17": {
+        "text": "Machine-checked Lean 4 theorems over all bank states, positions, amounts and limits: a successful non-bypass balance increase that mints deposit shares leaves floor(total deposits) strictly below an active deposit limit; likewise debt below the borrow limit; every successful non-bypass decrease (withdraw, borrow, withdraw-all) leaves total deposits >= total debt; the two liquidation bypass modes are the only paths that skip the caps (kernel-checked witness); depositing any amount up to get_remaining_deposit_capacity computed on the same bank state can never fail with BankAssetCapacityExceeded (one-unit safety margin proved sufficient). Model diffed against the real BankAccountWrapper/BankImpl code on ~32k generated operation steps per run (all error codes and panics compared), same predicates monitored on the real structs.",
+        "design_ref": "DESIGN.md §4 C17",
+        "note": _NOTE,
+        "technique": "Lean 4 proof: step theorems extracted from the monadic wrapper model (spec-extraction lemmas) + floor arithmetic; model/implementation correspondence check",
+    },
     "C20": {
         "text": "Machine-checked Lean 4 theorems for all supplies, amounts, prices, decimals: Kamino/Solend liquidity->collateral->liquidity and collateral->liquidity->collateral round trips never gain; Drift withdraw(increment(a)) <= a and decrement(a) >= increment(a); adjust_u64/i64/i128 return exactly floor(price*ratio), are monotone in price and ratio, and return None exactly when the product leaves I80F48 or the floor leaves the target integer type (iff theorem) — never a wrapped value; Drift price adjustment is exactly floor(p*cum/10^10); staleness predicates. The statement 'adjusted price <= price x EXACT rate' is proved FALSE for Kamino/Solend by a kernel-checked witness and kept as a partial theorem relative to the ratio actually used (known finding C20-F1, replayed on the real functions every run). Model diffed against the real functions on ~42k generated inputs per run incl. overflow cliffs.",
         "design_ref": "DESIGN.md §4 C20",
